@@ -205,4 +205,71 @@ theorem shl_limb_eq_loop (L : Nat) (a : List (BitVec 64)) (s : BitVec 32) :
        Choice.if_true_word (Choice.from_u32_nonzero s) ((a.getD (L - 1) 0#64) >>> ((64#32 - s) % 64#32))) := by
   shift_round_eq
 
+/-! ## `Uint::overflowing_shl_vartime` (limb move, then the sub-limb carry pass) -/
+
+theorem shlv_loop1_zero (L : Nat) (a : List (BitVec 64)) (k i : Nat) (limbs : List (BitVec 64)) :
+    Uint.overflowing_shl_vartime_loop1 L a k 0 i limbs = limbs := by
+  rw [Uint.overflowing_shl_vartime_loop1]
+
+theorem shlv_loop1_succ (L : Nat) (a : List (BitVec 64)) (k n i : Nat) (limbs : List (BitVec 64)) (h : i < L) :
+    Uint.overflowing_shl_vartime_loop1 L a k (n + 1) i limbs =
+      Uint.overflowing_shl_vartime_loop1 L a k n (i + 1) (limbs.set i (a.getD (i - k) 0#64)) := by
+  rw [Uint.overflowing_shl_vartime_loop1, if_pos h] <;> shift_round_eq
+
+theorem shlv_loop2_zero (L : Nat) (rem : BitVec 32) (i : Nat) (limbs : List (BitVec 64)) (c : BitVec 64) :
+    Uint.overflowing_shl_vartime_loop2 L rem 0 i limbs c = (limbs, c) := by
+  rw [Uint.overflowing_shl_vartime_loop2]
+
+theorem shlv_loop2_succ (L : Nat) (rem : BitVec 32) (n i : Nat) (limbs : List (BitVec 64)) (c : BitVec 64) (h : i < L) :
+    Uint.overflowing_shl_vartime_loop2 L rem (n + 1) i limbs c =
+      Uint.overflowing_shl_vartime_loop2 L rem n (i + 1)
+        (limbs.set i (((limbs.getD i 0#64) <<< (rem % 64#32)) ||| c)) ((limbs.getD i 0#64) >>> ((64#32 - rem) % 64#32)) := by
+  rw [Uint.overflowing_shl_vartime_loop2, if_pos h] <;> shift_round_eq
+
+/-- the function around the two loops: overflow test, limb count and bit count of the shift, early exit for a whole-limb
+    shift; a `ConstCtOption` is the pair (value, is_some mask) -/
+theorem shlv_eq (L : Nat) (a : List (BitVec 64)) (s : BitVec 32) :
+    Uint.overflowing_shl_vartime L a s =
+      if s ≥ BitVec.ofNat 32 (64 * L) then (List.replicate L 0#64, 0#64) else
+      if s % 64#32 = 0#32 then
+        (Uint.overflowing_shl_vartime_loop1 L a (s / 64#32).toNat (L - (s / 64#32).toNat) (s / 64#32).toNat
+          (List.replicate L 0#64), ~~~0#64)
+      else
+        ((Uint.overflowing_shl_vartime_loop2 L (s % 64#32) (L - (s / 64#32).toNat) (s / 64#32).toNat
+          (Uint.overflowing_shl_vartime_loop1 L a (s / 64#32).toNat (L - (s / 64#32).toNat) (s / 64#32).toNat
+            (List.replicate L 0#64)) 0#64).1, ~~~0#64) := by
+  simp only [Uint.overflowing_shl_vartime, decide_eq_true_eq, beq_iff_eq] <;> shift_congr 8
+
+/-! ## `Uint::overflowing_shr_vartime` -/
+
+theorem shrv_loop1_zero (L : Nat) (a : List (BitVec 64)) (k i : Nat) (limbs : List (BitVec 64)) :
+    Uint.overflowing_shr_vartime_loop1 L a k 0 i limbs = limbs := by
+  rw [Uint.overflowing_shr_vartime_loop1]
+
+theorem shrv_loop1_succ (L : Nat) (a : List (BitVec 64)) (k n i : Nat) (limbs : List (BitVec 64)) (h : i < L - k) :
+    Uint.overflowing_shr_vartime_loop1 L a k (n + 1) i limbs =
+      Uint.overflowing_shr_vartime_loop1 L a k n (i + 1) (limbs.set i (a.getD (i + k) 0#64)) := by
+  rw [Uint.overflowing_shr_vartime_loop1, if_pos h] <;> shift_round_eq
+
+theorem shrv_loop2_zero (rem : BitVec 32) (limbs : List (BitVec 64)) (c : BitVec 64) :
+    Uint.overflowing_shr_vartime_loop2 rem 0 limbs c = (limbs, c) := by
+  rw [Uint.overflowing_shr_vartime_loop2]
+
+theorem shrv_loop2_succ (rem : BitVec 32) (n : Nat) (limbs : List (BitVec 64)) (c : BitVec 64) :
+    Uint.overflowing_shr_vartime_loop2 rem (n + 1) limbs c =
+      Uint.overflowing_shr_vartime_loop2 rem n
+        (limbs.set n (((limbs.getD n 0#64) >>> (rem % 64#32)) ||| c)) ((limbs.getD n 0#64) <<< ((64#32 - rem) % 64#32)) := by
+  rw [Uint.overflowing_shr_vartime_loop2] <;> shift_round_eq
+
+theorem shrv_eq (L : Nat) (a : List (BitVec 64)) (s : BitVec 32) :
+    Uint.overflowing_shr_vartime L a s =
+      if s ≥ BitVec.ofNat 32 (64 * L) then (List.replicate L 0#64, 0#64) else
+      if s % 64#32 = 0#32 then
+        (Uint.overflowing_shr_vartime_loop1 L a (s / 64#32).toNat (L - (s / 64#32).toNat) 0 (List.replicate L 0#64), ~~~0#64)
+      else
+        ((Uint.overflowing_shr_vartime_loop2 (s % 64#32) (L - (s / 64#32).toNat)
+          (Uint.overflowing_shr_vartime_loop1 L a (s / 64#32).toNat (L - (s / 64#32).toNat) 0 (List.replicate L 0#64))
+          0#64).1, ~~~0#64) := by
+  simp only [Uint.overflowing_shr_vartime, decide_eq_true_eq, beq_iff_eq] <;> shift_congr 8
+
 end CB.GenBits
